@@ -1207,6 +1207,24 @@ func runL2History(g *gen, prof l2profile, nops int, stats map[string]int) (strin
 		do(&sop{kind: "sel", c: 1})
 		stats["script_same_value_reassigned"]++
 	}
+	if prof.faults && g.r.Intn(3) == 0 {
+		// a vacuum that purges a deleted row (so that it commits a new version and the version the
+		// connection was on becomes deletable) and whose first deletion of a version object fails:
+		// the vacuum reports an error, the connection must stay readable and writable
+		ks := []sval{{tag: 'I', i: 101}, {tag: 'I', i: 102}, {tag: 'I', i: 103}}
+		row := func() []sval { return []sval{g.l2val(), g.l2val(), g.l2val()}[:ncols] }
+		do(&sop{kind: "wt", c: 0, t: l2BaseSec + 1})
+		do(&sop{kind: "ins", c: 0, key: ks[0], vals: row()})
+		do(&sop{kind: "ins", c: 0, key: ks[1], vals: row()})
+		do(&sop{kind: "wt", c: 0, t: l2BaseSec + 2})
+		do(&sop{kind: "del", c: 0, key: ks[1]})
+		w.exec(&sop{kind: "vacuum", c: 0, before: 4102444800, flt: &l2fault{on: "Dm", k: 0}}, stats)
+		do(&sop{kind: "sel", c: 0})
+		do(&sop{kind: "wt", c: 0, t: l2BaseSec + 3})
+		do(&sop{kind: "ins", c: 0, key: ks[2], vals: row()})
+		do(&sop{kind: "sel", c: 0})
+		stats["script_vacuum_interrupted"]++
+	}
 	if prof.connAttrs && prof.autoTime && g.r.Intn(3) == 0 {
 		// a transaction that starts with the automatic write time and gets an explicit one after its
 		// first write: the explicit time applies from then on and stays set after COMMIT
